@@ -92,7 +92,7 @@ WORKER_CLASS = {"fork": HWorker, "spawn": HSpawnWorker, "forkserver": HForkserve
 
 
 class HFactory(FunctorWorkerFactory):
-    def __init__(self, shared, quota, faults, end_delay=0, begin_delay=0, start="fork", plan=None):
+    def __init__(self, shared, quota, faults, end_delay=0, begin_delay=0, start="fork", plan=None, slow_create=0):
         self.sh = shared
         self.quota = quota
         self.faults = faults or {}   # serial -> fault
@@ -101,8 +101,11 @@ class HFactory(FunctorWorkerFactory):
         self.begin_delay = begin_delay
         self.cls = WORKER_CLASS[start]
         self.plan = plan
+        self.slow_create = slow_create
 
     def create(self):
+        if self.slow_create and self.created >= 1:
+            self.sh.nap(self.slow_create)      # an expensive worker constructor: the pool has no live worker meanwhile
         w = self.cls(self.sh, self.quota, self.faults.get(self.created), self.created, self.end_delay,
                      self.begin_delay if self.created % 2 == 0 else 0, self.plan)
         self.created += 1
